@@ -96,6 +96,10 @@ def goal_of(it, v):
         k = fresh("sk", z3.IntSort())
         it.register_index(k)
         pre = [0 <= k, k < to_z3num(v.n)]
+        if getattr(v, "elem", None) is not None:
+            e = v.elem(k)
+            if is_z3(e) and z3.is_int(e) and not e.eq(k):
+                it.register_index(z3.simplify(e))  # e.g. 1 + k for range(1, R): quantified assumptions are instantiated there too
         it.pc += pre  # the body is evaluated for an element in range (dispatch feasibility uses it)
         try:
             b = v.body(k)
@@ -139,11 +143,13 @@ class Modifies:
             if isinstance(e, ast.Subscript):
                 sub = e.slice
                 e = e.value
-            if not isinstance(e, ast.Attribute) or e.attr != field:
+            if not isinstance(e, ast.Attribute) or e.attr != field.split(".")[-1]:
                 continue
             # receiver condition
             if gen is None:
                 recv = it.eval(e.value, dict(self.env))
+                if it.fq(recv, e.attr) != field:
+                    continue
                 rc = core.ref_eq(r, recv.ref)
                 env2 = dict(self.env)
             else:
@@ -151,6 +157,8 @@ class Modifies:
                 if not isinstance(seq, SymList):
                     raise Unsupported("modifies generator over a non-list")
                 if isinstance(gen.target, ast.Name) and isinstance(e.value, ast.Name) and e.value.id == gen.target.id:
+                    if it.fq(ObjV(r, seq.elem_classes), e.attr) != field:
+                        continue
                     rc = it.heap.list_member(seq.field, seq.owner.ref, r)
                     env2 = dict(self.env)
                     env2[gen.target.id] = ObjV(r, seq.elem_classes)
@@ -220,6 +228,7 @@ def verify_function(qualname, contract, schema, timeout_ms=10000, contracts=None
 
     def run(ch):
         it = Interp(mod, schema, mode=contract.get("mode", "REAL"), contracts=contracts or {})
+        it.families = schema.get("__families__")
         it.chooser = ch
         it.heap = TrackingHeap("h")
         env = {}
@@ -578,6 +587,85 @@ def full_assumptions(ob, timeout_ms, rep=None):
     return base + lf
 
 
+def _is_discrete(t, memo):
+    """no real-sorted sub-term (integer / reference / boolean reasoning only)"""
+    import z3.z3core as zc
+
+    ctx = t.ctx.ref()
+    stack = [t.as_ast()]
+    seen = set()
+    while stack:
+        a = stack.pop()
+        i = zc.Z3_get_ast_id(ctx, a)
+        if i in seen:
+            continue
+        seen.add(i)
+        if i in memo:
+            if not memo[i]:
+                return False
+            continue
+        if zc.Z3_get_sort_kind(ctx, zc.Z3_get_sort(ctx, a)) == z3.Z3_REAL_SORT:
+            memo[i] = False
+            return False
+        if zc.Z3_get_ast_kind(ctx, a) == z3.Z3_APP_AST:
+            app = zc.Z3_to_app(ctx, a)
+            for j in range(zc.Z3_get_app_num_args(ctx, app)):
+                stack.append(zc.Z3_get_app_arg(ctx, app, j))
+    return True
+
+
+def prune_goal(goal, assumptions, budget_ms=4000):
+    """decide the discrete conditions (index comparisons, typeof tests, list membership) that guard if-then-else terms in
+    the goal under the discrete part of the assumptions, and substitute their truth values.  Sound: a condition is replaced
+    by True/False only if the assumptions entail it; the nonlinear real reasoning then sees far fewer case splits."""
+    memo = {}
+    conds = {}
+    seen = set()
+    stack = [goal]
+    while stack:
+        t = stack.pop()
+        if t.get_id() in seen:
+            continue
+        seen.add(t.get_id())
+        if z3.is_app(t):
+            if t.decl().kind() == z3.Z3_OP_ITE:
+                c = t.arg(0)
+                for a in (c.children() if (z3.is_and(c) or z3.is_or(c)) else [c]):
+                    if _is_discrete(a, memo):
+                        conds[a.get_id()] = a
+                if _is_discrete(c, memo):
+                    conds[c.get_id()] = c
+            stack.extend(t.children())
+    if not conds:
+        return goal
+    disc = [a for a in assumptions if _is_discrete(a, memo)]
+    s = z3.Solver()
+    s.set("timeout", 500)
+    s.add(*disc)
+    s.add(*core.list_axiom_instances(disc + list(conds.values())))
+    t0 = time.time()
+    reps = []
+    for c in conds.values():
+        if (time.time() - t0) * 1000 > budget_ms:
+            break
+        s.push()
+        s.add(z3.Not(c))
+        r = s.check()
+        s.pop()
+        if r == z3.unsat:
+            reps.append((c, z3.BoolVal(True)))
+            continue
+        s.push()
+        s.add(c)
+        r = s.check()
+        s.pop()
+        if r == z3.unsat:
+            reps.append((c, z3.BoolVal(False)))
+    if not reps:
+        return goal
+    return z3.simplify(z3.substitute(goal, *reps))
+
+
 def discharge(ob, timeout_ms=10000, rep=None):
     t0 = time.time()
     # stage 1: without sum-lemma instances (fewer assumptions: a proof here is a proof)
@@ -605,6 +693,11 @@ def discharge(ob, timeout_ms=10000, rep=None):
     s = _solver(timeout_ms)
     s.add(*assumptions)
     goal = ob.goal
+    if ob.kind != "cover":
+        try:
+            goal = prune_goal(goal, assumptions)
+        except z3.Z3Exception:
+            goal = ob.goal
     s.add(z3.Not(goal))
     s.add(*core.list_axiom_instances(list(assumptions) + [goal]))
     r = s.check()
